@@ -258,6 +258,30 @@ def gen_C01(rng, tier):
     return out
 
 
+def full_section_battery(opfmt):
+    """a COMPLETELY full section: one line for every delta 0..65534 (65535 lines), then the next
+    section; bounds of every kind on and around its first and last line.  Result sets are kept
+    small (the bounds are near each other)."""
+    out = []
+    for p in [0, 4]:
+        f = 10000
+        h = Hist(p)
+        h.new()
+        h.pushrun(f, 1, MAXD + 1, 3)          # f .. f+65534
+        h.pushrun(f + MAXD + 1, 1, 3, 4)      # next section
+        last = f + MAXD
+        for a, b in [(last - 2, last), (last - 2, last + 1), (last, last), (last - 1, last + 2), (f, f + 1),
+                     (last + 1, last + 3), (last - 3, last - 1)]:
+            for ks in ("I", "E"):
+                for ke in ("I", "E"):
+                    h.op(opfmt.format(s=f"{ks}:{a}", e=f"{ke}:{b}"))
+            if a > f:
+                h.op(opfmt.format(s=f"I:{a}", e="U"))
+        h.op(opfmt.format(s=f"I:{last - 1}", e=f"I:{U64}"))
+        out.append((f"full-section-p{p}", h.script()))
+    return out
+
+
 def gen_range_reads(rng, tier, opfmt, payloads=None, extra_n=None):
     """histories with gaps; bound pairs from the critical values of each history"""
     out = []
@@ -304,11 +328,11 @@ def gen_range_reads(rng, tier, opfmt, payloads=None, extra_n=None):
 
 
 def gen_C02(rng, tier):
-    return gen_range_reads(rng, tier, "read_all s={s} e={e}")
+    return full_section_battery("read_all s={s} e={e}") + gen_range_reads(rng, tier, "read_all s={s} e={e}")
 
 
 def gen_C14(rng, tier):
-    return gen_range_reads(rng, tier, "n_lines s={s} e={e}")
+    return full_section_battery("n_lines s={s} e={e}") + gen_range_reads(rng, tier, "n_lines s={s} e={e}")
 
 
 def gen_C13(rng, tier):
